@@ -699,3 +699,58 @@ def vg2f(P, C):
                  "the reader accepts any NAXIS >= 1: fits_read_pix addresses the image through 9-element axis arrays, which a file with more axes overruns")
     if n_scalar < 2:
         raise core.AnalysisBroken("VG-2f: expected the knot and extent reads with a single first pixel, found %d" % n_scalar)
+
+
+def vg6(P, C):
+    """VG-6: the stacking order is one the number of tables can support."""
+    C.rule("VG-6", "stacking N tables gives the new dimension N+2 coefficients (two padding tables); a well-formed dimension has at least order+1 "
+           "(its knot count N+2+order+1 must reach 2*order+2), or evaluation has no fully supported interval and the reader refuses the "
+           "table the writer has just written. The stacking constructor therefore refuses, by a throwing guard ahead of any allocation, "
+           "exactly the combinations with N + 2 < stackOrder + 1 (the guard's condition is evaluated for N = 2..7, order 0..9)", floor=1)
+    fs_ = [g for g in P.fns("splinetable") if g.unit == "driver" and g.cls == ts.CLS and g.kind == "ctor" and len(g.params) >= 3]
+    if not fs_:
+        raise core.AnalysisBroken("VG-6: stacking constructor not found")
+    f = fs_[0]
+    tn, on = f.params[0]["name"], f.params[2]["name"]
+    best = None
+    for g in guards_of(f):
+        txt = f.render(f.nodes[g["node"]]["cond"])
+        if on not in txt or "%s.size()" % tn not in txt.replace(" ", ""):
+            continue
+        ok = True
+        why = ""
+        for N in range(2, 8):
+            for k in range(0, 10):
+                try:
+                    v = core.truth(core.expr_value(f, f.nodes[g["node"]]["cond"], {"%s.size()" % tn: N, on: k}))
+                except core.Unknown as e:
+                    ok, why = False, "cannot be evaluated (%s)" % e
+                    break
+                if v != (N + 2 < k + 1):
+                    ok, why = False, "for %d tables and order %d it %s" % (N, k, "refuses a combination that is well-formed" if v else "lets an order through that %d coefficients cannot support" % (N + 2))
+                    break
+            if not ok:
+                break
+        best = (g, ok, why)
+        if ok:
+            break
+    if best is None:
+        C.ob("VG-6", "stacking constructor", "order-supported-by-the-number-of-tables", False, f.where(),
+             "no throwing guard relates the number of tables to the stacking order: two tables stacked with order 4 give 4 coefficients on 9 knots")
+        return
+    g, ok, why = best
+    pos = f.node_positions()
+    dom = f.dominators()
+    allocs = [i for i, cal in f.calls() if cal and cal["name"] == "allocate" and i in pos]
+    pg = None
+    c0 = f.strip(f.nodes[g["node"]]["cond"])
+    while f.k(c0) == "BinaryOperator" and f.nodes[c0].get("op") in ("&&", "||"):
+        c0 = f.strip(f.nodes[c0]["ch"][0])
+    for x in [c0] + list(f.walk(c0)):
+        if x in pos:
+            pg = pos[x]
+            break
+    first = bool(pg) and all(pg[0] in dom.get(pos[a][0], ()) for a in allocs)
+    C.ob("VG-6", "stacking constructor", "order-supported-by-the-number-of-tables", ok and first, f.loc(g["node"]),
+         "`%s` refuses exactly N + 2 < order + 1, before anything is allocated" % g["text"][:70] if ok and first else
+         "the guard `%s` %s%s" % (g["text"][:70], why or "is right", "" if first else "; it does not precede every allocation"))
